@@ -592,6 +592,10 @@ func VP_C11_nested() {
 		"g1": func(x int) (int, error) { add("g1(" + it(x) + ")"); return x + 1, nil },
 		"g2": func(x, y int) (int, error) { add("g2(" + it(x) + "," + it(y) + ")"); return x + y, nil },
 		"mk": func(x int) ([]interface{}, error) { add("mk(" + it(x) + ")"); return []interface{}{x, x + 1}, nil },
+		"obj": func(x int) (map[string]interface{}, error) {
+			add("obj(" + it(x) + ")")
+			return map[string]interface{}{"k": x}, nil
+		},
 		"v3": func(a int, rest ...int) (int, error) {
 			s := "v3(" + it(a)
 			for _, r := range rest {
@@ -614,6 +618,7 @@ func VP_C11_nested() {
 		{"v3(1, g1(4), 3, g2(1, 1))", []string{"g1(4)", "g2(1,1)", "v3(1,5,3,2)"}, 4},
 		{"g2(7, f3(1, g1(1), 1))", []string{"g1(1)", "f3(1,2,1)", "g2(7,4)"}, 11},
 		{"v3(g1(1), mk(5)...)", []string{"g1(1)", "mk(5)", "v3(2,5,6)"}, 4},
+		{"obj(3)!.k + 1", []string{"obj(3)"}, 4}, {"obj(3).k + obj(4)!.k", []string{"obj(3)", "obj(4)"}, 7}, {"g1(obj(1)!.k)", []string{"obj(1)", "g1(1)"}, 2},
 		{"v3(g1(1), mk(g1(3))...)", []string{"g1(1)", "g1(3)", "mk(4)", "v3(2,4,5)"}, 4},
 	}
 	p := pool[vpChoice("f", len(pool))]
